@@ -13,12 +13,16 @@ from sklearn.neural_network import _stochastic_optimizers as _so
 
 
 @contextlib.contextmanager
-def optimiser_spy(on_step):
+def optimiser_spy(on_step=None, after=None):
     orig = _so.BaseOptimizer.update_params
 
     def spy(self, params, grads):
-        on_step(self, params, grads)
-        return orig(self, params, grads)
+        if on_step is not None:
+            on_step(self, params, grads)
+        res = orig(self, params, grads)
+        if after is not None:
+            after(self, params, grads)
+        return res
 
     _so.BaseOptimizer.update_params = spy
     try:
